@@ -4,6 +4,10 @@ from ..engines import totality as T
 
 
 def run(ctx):
+    # language-level slips in the modules the property is anchored in (engine Y)
+    from ..engines import gotchas as GY
+    GY.run(ctx, ('class_db',))
+    ctx.floor("Y", 1)
     ctx.extra["explanation"] = (
         "static analysis (ast, no execution) of class_db.py and of every caller of "
         "ClassDB.set_empty: lookups are total (range/handler discipline), storage is "
